@@ -55,6 +55,7 @@ type Recorder struct {
 	violations    []Violation
 	known         []string // KNOWN-FINDING lines (what still fails)
 	lastFail      *pendingFail
+	journaled     bool // the first failing case has been written to the journal
 	notes         map[string]interface{}
 	matchers      map[string]Matcher
 	fatal         string // exit-2 condition (harness could not do its job)
@@ -273,8 +274,58 @@ func (r *Recorder) Fail(c interface{}, msg string) bool {
 	}
 	r.mu.Lock()
 	r.lastFail = &pendingFail{caseJSON: b, msg: msg}
+	first := !r.journaled
+	r.journaled = true
 	r.mu.Unlock()
+	if first {
+		// The first failing case is saved at once (before shrinking): if the
+		// process is killed later (a hang that exhausts the driver's time
+		// limit) the driver still reports it from the journal.
+		r.journal(r.writeReplay(b, msg), msg)
+	}
 	return true
+}
+
+func (r *Recorder) replayDir() string {
+	dir := filepath.Join(Root(), "replays", r.ID)
+	if d := os.Getenv("VERIF_REPLAY_DIR"); d != "" {
+		// runs against a scratch copy of the repository (mutation testing of
+		// the checks) keep their replays out of /verif/replays
+		dir = filepath.Join(d, r.ID)
+	}
+	os.MkdirAll(dir, 0o755)
+	return dir
+}
+
+func (r *Recorder) writeReplay(caseJSON []byte, msg string) string {
+	name := fmt.Sprintf("%s-%016x.json", r.Check, Hash(string(caseJSON)))
+	path := filepath.Join(r.replayDir(), name)
+	doc := map[string]interface{}{
+		"property": r.ID,
+		"check":    r.Check,
+		"msg":      msg,
+		"case":     json.RawMessage(caseJSON),
+	}
+	b, _ := json.MarshalIndent(doc, "", " ")
+	os.WriteFile(path, append(b, '\n'), 0o644)
+	return path
+}
+
+// journal appends a violation to an append-only file next to the stats files;
+// the driver reads it only for processes that never wrote their stats.
+func (r *Recorder) journal(path, msg string) {
+	dir := os.Getenv("VERIF_STATS_DIR")
+	if dir == "" {
+		return
+	}
+	shard, _ := Shard()
+	b, _ := json.Marshal(Violation{Check: r.Check, Replay: path, Msg: msg})
+	f, err := os.OpenFile(filepath.Join(dir, fmt.Sprintf("journal.%s.%d.jsonl", strings.ReplaceAll(r.Check, "/", "_"), shard)), os.O_APPEND|os.O_CREATE|os.O_WRONLY, 0o644)
+	if err != nil {
+		return
+	}
+	f.Write(append(b, '\n'))
+	f.Close()
 }
 
 // FailNow is Fail for enumeration loops: the violation is recorded at once
@@ -310,23 +361,8 @@ func (r *Recorder) flushFail() {
 	if pf == nil {
 		return
 	}
-	dir := filepath.Join(Root(), "replays", r.ID)
-	if d := os.Getenv("VERIF_REPLAY_DIR"); d != "" {
-		// runs against a scratch copy of the repository (mutation testing of
-		// the checks) keep their replays out of /verif/replays
-		dir = filepath.Join(d, r.ID)
-	}
-	os.MkdirAll(dir, 0o755)
-	name := fmt.Sprintf("%s-%016x.json", r.Check, Hash(string(pf.caseJSON)))
-	path := filepath.Join(dir, name)
-	doc := map[string]interface{}{
-		"property": r.ID,
-		"check":    r.Check,
-		"msg":      pf.msg,
-		"case":     json.RawMessage(pf.caseJSON),
-	}
-	b, _ := json.MarshalIndent(doc, "", " ")
-	os.WriteFile(path, append(b, '\n'), 0o644)
+	path := r.writeReplay(pf.caseJSON, pf.msg)
+	r.journal(path, pf.msg)
 	r.mu.Lock()
 	r.violations = append(r.violations, Violation{Check: r.Check, Replay: path, Msg: pf.msg})
 	r.mu.Unlock()
